@@ -142,6 +142,11 @@ def strata(tier):
         rng = G.rng_for("C10-str", j)
         doc = G.doc(rng, 3, 4)
         yield {"kind": "str", "tokens": _tokens_for(rng, doc), "delim": rng.choice(["/", ":", "|"]), "doc": doc}
+    # YAML texts with plain scalars that older YAML versions read as booleans / octal / sexagesimal numbers
+    for j, k in enumerate(["no", "yes", "on", "off", "y", "n", "010", "1:30", "~", "0o17"]):
+        r1 = {"path": PC.mkpath([{"p": "prim", "v": "country"}, {"p": "prim", "v": k}]), "cond": PC.L("value", "equal_to", k), "cast": None, "doc_spec": None}
+        r2 = {"path": PC.mkpath([{"p": "prim", "v": k}]), "cond": PC.L("value", "in_", [k, "x"]), "cast": None, "doc_spec": k}
+        yield {"kind": "yaml", "rules": [r1, r2], "sseed": j, "doc": {"country": {k: k, "zz": 1}, k: "nope"}, "file": j % 2 == 0}
     for di, ds in enumerate(DOC_SHAPES):
         for ci, cast in enumerate((None, [["str", "bool"]], [["str", "int"]])):
             for j in range(2 if tier == "quick" else 6):
@@ -466,8 +471,36 @@ def run_str(case, ctx):
                 ctx.mark_nontrivial((s, delim, repr(doc)))
     except M.Undefined:
         pass
+    # history: the same string has just been parsed with this delimiter; now with another one
+    for d2 in ("/", ".", ":", "|"):
+        if d2 == delim:
+            continue
+        parts2 = [token_part(t)[0] for t in (s.split(d2) if s else [])]
+        ok2, o2 = call(DP.DataPath.from_str, s, d2)
+        if ok2 and len(o2.parts) != len(parts2):
+            ctx.violate("C10/str/delimiter-history", f"from_str({s!r}, {d2!r}) after from_str({s!r}, {delim!r}) has {len(o2.parts)} parts, expected {len(parts2)}")
+            break
+        if ok2:
+            e2 = M.walk(PC.mkpath(parts2), doc)
+            g2 = norm_sel2(o2, doc)
+            if e2 is not M.SKIP and g2 is not None and g2 != canon([(p, n) for p, n in e2]):
+                ctx.violate("C10/str/delimiter-history", f"from_str({s!r}, {d2!r}) after from_str({s!r}, {delim!r}) selects differently from what its tokens mean")
+                break
     for k in set(kinds):
         ctx.count("str:" + k)
+
+
+def norm_sel2(obj, doc):
+    ok, r = call(obj.get_data, doc, True)
+    if not ok:
+        return None
+    if not obj.parts:
+        return canon([((), r[0])])
+    if r in (None, []):
+        return canon([])
+    if obj.is_concrete:
+        r = [r]
+    return canon([(tuple(p), v) for v, p in r])
 
 
 def run_rule(case, ctx):
